@@ -1,4 +1,5 @@
 import DhcpProofs.Lemmas.ClientTimed
+import DhcpProofs.Lemmas.ClientLTSProgress
 /-
   C11 — client calls always complete: timeout, cancellation, Close, cleanup.
   Property theorems only.
@@ -71,3 +72,95 @@ example : runObs 50 2 ((List.range 100).map (fun (i : Nat) => ⟨20 * (i : Int),
     ⟨[0, 50], some (150, .noResp)⟩ := by decide
 
 end Dhcp.Client.Timed
+
+/-
+  Part 2: xid reuse, Close safety and progress, over the interleaving model
+  Dhcp.Client.LTS (vocabulary: Props/C10.lean). `Reachable cfg s`: some label
+  list (any interleaving of any number of callers, the receive loop, Close,
+  datagrams, timers, context ends) leads from the initial state to `s`.
+-/
+namespace Dhcp.Client.LTS
+
+/-- **C11_reuse.** Once a call has returned — and already when it is back in
+`retryFn` between two tries — no entry of the pending map is there on its
+account: its transaction id is immediately reusable (by itself or by anyone:
+`register` on that id is enabled unless ANOTHER call holds it). -/
+theorem C11_reuse (cfg : Cfg) (hf : cfg.cancelChecksOwner = true) (s : State) (hr : Reachable cfg s) (i : Nat)
+    (hpc : (∃ res, (getC s i).pc = .returned res) ∨ (∃ w, (getC s i).pc = .after w) ∨ (getC s i).pc = .start)
+    (x r : Nat) (hp : s.pending.get x = some r) : (getR s r).owner ≠ i := by
+  have hi := reach_all cfg hf s hr
+  intro ho
+  have := hi.w.powner x r hp
+  rw [ho] at this
+  rcases hpc with ⟨res, h⟩ | ⟨w, h⟩ | h <;> rw [h] at this <;> simp at this
+
+/-- **C11_close_safe.** No reachable state has hit one of the two Go panics
+this protocol could hit: closing a closed channel (`close(p.ch)` in the loop
+or in `cancel`, `close(done)`), sending on a closed channel (`p.ch <- msg`). -/
+theorem C11_close_safe (cfg : Cfg) (hf : cfg.cancelChecksOwner = true) (s : State) (hr : Reachable cfg s) :
+    s.fault = none := (reach_all cfg hf s hr).w.nofault
+
+/-- **C11 (a try that starts after Close reports ErrNoResponse).** The write
+fails, `cancel()` runs, and the call returns the no-response error (the
+defect fixed in 98bd242: it used to return the transport's write error). -/
+theorem C11_close_between_tries (cfg : Cfg) (s s' : State) (i : Nat) (hpc : (getC s i).pc = .after .txfail)
+    (h : step cfg s (.ret i) = some s') : (getC s' i).pc = .returned .noResp := by
+  simp only [step, hpc] at h
+  split at h
+  · simp at h
+  · injection h with h; subst h; simp [getC, retOf]
+
+/-- **C11_close_progress (deadlock freedom).** In every reachable state in
+which the client has been closed, either everything has finished — the receive
+loop has exited, Close has returned, every call has returned — or some step
+of the client itself (receive loop, Close, a caller; not the environment) is
+enabled. Includes the state where the loop is parked on a full channel
+holding the mutex: then the owner of that channel can move. -/
+theorem C11_close_progress (cfg : Cfg) (hf : cfg.cancelChecksOwner = true) (s : State) (hr : Reachable cfg s)
+    (hc : s.closed = true) :
+    (s.rx = .exited ∧ s.closeReturned = true ∧ ∀ i, (getC s i).pc = .idle ∨ ∃ res, (getC s i).pc = .returned res) ∨
+    ∃ l, isEnv l = false ∧ (step cfg s l).isSome = true :=
+  closed_progress cfg hf s hr hc
+
+/-- **C11_close_variant (termination measure, per process).** After Close,
+for every caller `i` the measure `mu i` (its distance to `returned` in program
+counter steps, twice the packets waiting in its channel, and the work the
+receive loop and Close can still do: program counter, 12 per datagram in the
+socket queue, 1 for `wg.Wait`) never increases on a step of the client and
+strictly decreases on every step of caller `i` itself, of the receive loop,
+and of Close's wait. So after Close every process takes finitely many steps;
+with `C11_close_progress` (something can always move until all is done):
+under any fair schedule the receive loop exits, Close returns and every call
+returns. -/
+theorem C11_close_variant (cfg : Cfg) (hf : cfg.cancelChecksOwner = true) (s s' : State) (hr : Reachable cfg s)
+    (hc : s.closed = true) (l : Label) (hl : isEnv l = false) (h : step cfg s l = some s') (i : Nat) :
+    mu i s' ≤ mu i s ∧ (movesFor i l = true → mu i s' < mu i s) :=
+  let hw := (reach_all cfg hf s hr).w
+  ⟨mu_mono cfg s s' l i hc hw hl h, fun hm => mu_strict cfg s s' l i hc hw hm h⟩
+
+/-- The single-rank form asked for by the design: ONE function of the state
+that strictly decreases on every non-environment step in a closed state. -/
+def C11_close_rank_full (cfg : Cfg) : Prop :=
+  ∃ rank : State → Nat, ∀ s s' l, Reachable cfg s → s.closed = true → isEnv l = false →
+    step cfg s l = some s' → rank s' < rank s
+
+/-! `C11_close_rank_full` is not proved: a single rank needs the sum of the
+per-caller measures over the (finite but unbounded) set of callers that have
+been started, i.e. a sum over the support of the `callers` map; what is proved
+instead is the family `mu i` above (`C11_close_variant`), which gives the same
+conclusion — finitely many steps per process after Close — without the sum. -/
+
+/-! Non-vacuity: a reachable closed state with the loop parked on a full
+channel while holding the mutex (cap 0, matcher not yet evaluated). -/
+def cfgPark : Cfg :=
+  { caller := fun _ => { xid := 5, matchNil := false, accepts := fun d => d.tag == 1, retry := 1 }, cap := 0 }
+
+def parkTrace : List Label :=
+  [.call 0, .lock 0, .register 0, .transmit 0, .arrive ⟨5, true, 0⟩, .arrive ⟨5, true, 0⟩,
+   .rxRead, .rxPass, .rxLock, .rxDeliver, .rxUnlock, .take 0, .rxRead, .rxPass, .rxLock, .close]
+
+example : ∃ s, Reachable cfgPark s ∧ s.closed = true ∧ s.mutex = some .rx ∧
+    (∃ p r, s.rx = .sending p r) ∧ step cfgPark s .rxDeliver = none ∧ step cfgPark s .rxDoneDrop = none :=
+  ⟨_, ⟨parkTrace, rfl⟩, by decide, by decide, ⟨_, _, rfl⟩, by decide, by decide⟩
+
+end Dhcp.Client.LTS
